@@ -49,6 +49,7 @@ type psnap = {
   handles : (int * Model.edge) list;
   inner : int; listed : int; gc : int; reorder : int; levels : int;
   nnodes : int;
+  nterms : int;     (* Manager::num_terminals() *)
 }
 
 let split_bar (s : string) : string list =
@@ -70,7 +71,7 @@ let parse_snapshot (kname : string) (body : string) : psnap =
   let terms = ref [] and handles = ref [] in
   let v2l = ref [||] and l2v = ref [||] in
   let inner = ref 0 and listed = ref 0 and gc = ref 0 and reorder = ref 0 and levels = ref 0 in
-  let nn = ref 0 in
+  let nn = ref 0 and nterms = ref 0 in
   List.iter
     (fun piece ->
       match split_ws piece with
@@ -93,6 +94,7 @@ let parse_snapshot (kname : string) (body : string) : psnap =
             | [ "gc"; v ] -> gc := int_of_string v
             | [ "reorder"; v ] -> reorder := int_of_string v
             | [ "levels"; v ] -> levels := int_of_string v
+            | [ "terms"; v ] -> nterms := int_of_string v
             | _ -> ())
           kv
       | _ -> ())
@@ -103,7 +105,7 @@ let parse_snapshot (kname : string) (body : string) : psnap =
       Model.s_v2l = List.map nat (Array.to_list !v2l); Model.s_l2v = List.map nat (Array.to_list !l2v);
       Model.s_handles = List.map (fun (s, e) -> (n_of_int s, e)) hs } in
   { snap; v2l = !v2l; l2v = !l2v; handles = hs; inner = !inner; listed = !listed; gc = !gc;
-    reorder = !reorder; levels = !levels; nnodes = !nn }
+    reorder = !reorder; levels = !levels; nnodes = !nn; nterms = !nterms }
 
 (* ---- value tables ------------------------------------------------------ *)
 type vt = int array          (* index = assignment (bit v = variable v), value = code *)
